@@ -4,16 +4,18 @@ EXTENDS Lifecycle, Json
 CONSTANT MaxMods
 NameOrder == <<"a", "b", "c", "d", "e", "p", "x", "y">>
 Ord(n) == CHOOSE k \in 1 .. Len(NameOrder) : NameOrder[k] = n
-GInit == /\ Init
-         /\ Cardinality(mods) <= MaxMods
-         /\ Cardinality(wrong) <= 1
-         /\ Cardinality({m \in mods : fail[m] # "none"}) <= 1
-         /\ \A m \in mods : Cardinality(att[m]) <= 2
+(* the bounded configuration space; every restriction directly follows the choice it restricts, so that TLC *)
+(* never enumerates the unrestricted product                                                              *)
+GInit == /\ mods \in {M \in (SUBSET Names) \ {{}} : Cardinality(M) <= MaxMods}
+         /\ att \in [mods -> {S \in SUBSET (Names \cup {Missing}) : Cardinality(S) <= 2}]
+         /\ wrong \in {W \in SUBSET {e \in mods \X mods : e[2] \in att[e[1]]} : Cardinality(W) <= 1}
+         /\ fail \in {f \in [mods -> FailKinds] : Cardinality({m \in mods : f[m] # "none"}) <= 1}
          /\ polls \in {mods, {}} \cup {{m} : m \in mods}
          /\ writes \in {polls, {}, mods, mods \ polls}
          \* every module has its own poll thread, or every module with attachments is served by the thread of its first one (`io`)
-         /\ \/ host = [m \in mods |-> m]
-            \/ host = [m \in mods |-> IF att[m] \cap mods = {} THEN m ELSE CHOOSE t \in att[m] \cap mods : \A u \in att[m] \cap mods : Ord(t) <= Ord(u)]
+         /\ host \in {[m \in mods |-> m],
+                       [m \in mods |-> IF att[m] \cap mods = {} THEN m ELSE CHOOSE t \in att[m] \cap mods : \A u \in att[m] \cap mods : Ord(t) <= Ord(u)]}
+         /\ RunInit
 GSpec == GInit /\ [][FALSE]_vars
 (* the design check needs only the failure kinds that differ for the automaton *)
 BasicFail == \A m \in mods : fail[m] \in {"none", "early", "init", "create"}
